@@ -77,18 +77,18 @@ func capturedBinding(parent *ssa.Function, cl *ssa.Function, name string) ssa.Va
 
 func runC14(c *core.Ctx) {
 	p := c.P
-	c.Rule("R1", "request/reply routing: YieldRef replies to the requester carried by the received request with `out` and returns the request's value; YieldFrom sends (caller, in) to the target and returns what arrives on its own result channel; receive builds {cor: caller, val: in}", 3)
+	c.Rule("R1", "request/reply routing: YieldRef replies to the requester carried by the received request with `out` and returns the request's value; YieldFrom sends {cor: caller, val: in} on the target's request channel under the target's lock and returns what arrives on its own result channel; a request helper (receive), where there is one, builds {cor: caller, val: in}", 2)
 	c.Rule("R3", "the request and result channels of a coroutine are assigned only on the object under construction (never created lazily or replaced once the coroutine is shared)", 2)
 	c.Rule("R2", "lifecycle ordering: started flag before spawn, effect then close; StartWithVal enqueues before Start; DoNotation/YieldFromIO assign before Done and Wait before return", 4)
 	yr := p.Method(p.Fpgo, "CorDef", "YieldRef")
 	yf := p.Method(p.Fpgo, "CorDef", "YieldFrom")
-	rc := p.Method(p.Fpgo, "CorDef", "receive")
-	wrapper := p.Method(p.Fpgo, "CorDef", "doCloseSafe")
-	if yr == nil || yf == nil || rc == nil || wrapper == nil {
-		c.Unknown("R1", "anchors", "-", "YieldRef/YieldFrom/receive/doCloseSafe not all found")
+	rc := p.Method(p.Fpgo, "CorDef", "receive") // may have been inlined into its callers
+	if yr == nil || yf == nil {
+		c.Unknown("R1", "anchors", "-", "YieldRef/YieldFrom not found")
 		return
 	}
-	c.Analysed(core.FuncName(yr), core.FuncName(yf), core.FuncName(rc))
+	c.Analysed(core.FuncName(yr), core.FuncName(yf))
+	li := core.ComputeLocks(p)
 	// ---------- YieldRef
 	{
 		ok, detail := func() (bool, string) {
@@ -143,85 +143,40 @@ func runC14(c *core.Ctx) {
 				fa, isFA := u.X.(*ssa.FieldAddr)
 				return isFA && core.FieldKey(fa) == "CorOp."+field && isRecvOp(core.FieldOwner(fa), st)
 			}
-			// reply wrapper call
-			var w *ssa.Call
-			var wstack []*ssa.Call
-			nW := 0
-			for _, f := range core.DeepFind(p, yr, func(ins ssa.Instruction) bool {
-				call, isC := ins.(*ssa.Call)
-				return isC && core.Callee(&call.Call) == wrapper
-			}) {
-				w, wstack, nW = f.Ins.(*ssa.Call), f.Stack, nW+1
+			// the reply: the one send on a result channel reachable from YieldRef (in the method, a helper, or the function
+			// handed to a lock wrapper), expressed in YieldRef's frame
+			replies := c14deepSends(p, li, yr, "CorDef.resultCh")
+			if len(replies) != 1 {
+				return false, fmt.Sprintf("expected one guarded reply (found %d sends on a result channel)", len(replies))
 			}
-			if nW != 1 || len(w.Call.Args) < 2 {
-				return false, fmt.Sprintf("expected one guarded reply (found %d wrapper calls)", nW)
+			rp := replies[0]
+			if rp.owner.v == nil || !isOpField(rp.owner.v, rp.owner.stack, "cor") {
+				return false, "the reply goes to the result channel of " + rp.ownerPath + ", which is not the requester stored in the received request: the value is routed to the wrong coroutine"
 			}
-			fv := core.ResolveFuncValue(p, w.Call.Args[1])
-			if fv == nil {
-				return false, "the function handed to the lock wrapper is not a function value built here"
+			if !rp.locked {
+				return false, "the reply is sent without holding the lock of the requester carried by the received request (op.cor): the send races with that coroutine's close, and a full result channel deadlocks"
 			}
-			if !isOpField(w.Call.Args[0], wstack, "cor") {
-				return false, "the reply is sent under the lock of " + core.Path(w.Call.Args[0]) + ", not of the requester carried by the received request (op.cor): wrong lock → sends race with that coroutine's close, and a full request channel deadlocks"
-			}
-			cl, outer := guardedBody(p, fv)
-			var send *ssa.Send
-			core.Instrs(cl, func(ins ssa.Instruction) {
-				if s, isS := ins.(*ssa.Send); isS {
-					send = s
-				}
-			})
-			if send == nil || core.FieldKey(send.Chan) != "CorDef.resultCh" {
-				return false, "the reply closure does not send on a result channel"
-			}
-			// the channel's owner is the captured requester (captured variable / field of the bound receiver)
-			ownerName := core.FieldBase(send.Chan)
-			var owner ssa.Value
-			if ld, isLd := core.Unwrap(send.Chan).(*ssa.UnOp); isLd {
-				if fa, isFA := ld.X.(*ssa.FieldAddr); isFA {
-					owner = outer(core.FieldOwner(fa))
-				}
-			}
-			if owner == nil || !isOpField(owner, wstack, "cor") {
-				return false, "the reply goes to the result channel of " + ownerName + ", which is not the requester stored in the received request: the value is routed to the wrong coroutine"
-			}
-			if v, st := core.Up(outer(send.X), wstack); len(st) != 0 || v != ssa.Value(yr.Params[1]) {
+			if !rp.val.isRoot(yr.Params[1]) {
 				return false, "the value sent back is not YieldRef's argument"
 			}
 			// exactly once where a requester is present
 			present := false
-			type frameBlock struct {
-				b  *ssa.BasicBlock
-				st []*ssa.Call
-			}
-			fbs := []frameBlock{{w.Block(), wstack}}
-			for i, sc := range wstack {
-				fbs = append(fbs, frameBlock{sc.Block(), wstack[:i]})
-			}
-			for _, fb := range fbs {
-				for _, m := range core.EdgeCmps(fb.b) {
-					if m.Op == token.NEQ && core.IsNilConst(m.Y) && isOpField(m.X, fb.st, "cor") {
+			for _, fr := range rp.frames {
+				for _, m := range core.EdgeCmps(fr.block) {
+					x := fr.conv(m.X)
+					if x.v == nil {
+						continue
+					}
+					if m.Op == token.NEQ && core.IsNilConst(m.Y) && isOpField(x.v, x.stack, "cor") {
 						present = true
 					}
 					// any nil test of the received request itself on the way must say "not nil"
-					if m.Op == token.EQL && core.IsNilConst(m.Y) && isRecvOp(m.X, fb.st) {
+					if m.Op == token.EQL && core.IsNilConst(m.Y) && isRecvOp(x.v, x.stack) {
 						return false, "the reply is sent only when the received request is nil: real requests are never answered (their YieldFrom hangs) and the nil request is dereferenced"
 					}
 				}
 			}
-			// at most once: in every frame of the chain the call towards the reply is passed at most once per path
-			max := 1
-			for _, ci := range append(append([]*ssa.Call{}, wstack...), w) {
-				tgt := ssa.Instruction(ci)
-				if _, mx := core.PathCount(ci.Parent(), func(ins ssa.Instruction) int {
-					if ins == tgt {
-						return 1
-					}
-					return 0
-				}, nil); mx != 1 {
-					max = mx
-				}
-			}
-			if !present || max != 1 {
+			if !present || !rp.once {
 				return false, "the reply is not sent exactly once on the path where the request carries a requester"
 			}
 			// return value
@@ -252,17 +207,22 @@ func runC14(c *core.Ctx) {
 	// ---------- YieldFrom
 	{
 		ok, detail := func() (bool, string) {
-			calls := callsOf(yf, core.FuncName(rc))
-			if len(calls) != 1 {
-				return false, fmt.Sprintf("YieldFrom issues %d requests (must be 1)", len(calls))
+			reqs := c14deepSends(p, li, yf, "CorDef.opCh")
+			if len(reqs) != 1 {
+				return false, fmt.Sprintf("YieldFrom issues %d requests (must be 1)", len(reqs))
 			}
-			call := calls[0]
-			if call.Call.Args[0] != ssa.Value(yf.Params[1]) || call.Call.Args[1] != ssa.Value(yf.Params[0]) || call.Call.Args[2] != ssa.Value(yf.Params[2]) {
-				return false, "the request is not target.receive(caller, in): it must go to the target and carry the caller and the input value"
+			rq := reqs[0]
+			if why := rq.requestIs(yf.Params[1], yf.Params[0], yf.Params[2]); why != "" {
+				return false, "the request is not target.receive(caller, in): it must go to the target and carry the caller and the input value (" + why + ")"
 			}
 			closedEdge := flagEdge(p, yf.Params[0].Name(), "isClosed", true)
-			min, max := countCallsOf(yf, core.FuncName(rc), closedEdge)
-			if min != 1 || max != 1 {
+			min, max := core.PathCountEdges(yf.Blocks[0], nil, func(ins ssa.Instruction) int {
+				if ins == rq.rootIns {
+					return 1
+				}
+				return 0
+			}, closedEdge)
+			if min != 1 || max != 1 || !rq.once {
 				return false, fmt.Sprintf("request sent %d..%d times on the live path", min, max)
 			}
 			var recv *ssa.UnOp
@@ -274,87 +234,50 @@ func runC14(c *core.Ctx) {
 			if recv == nil || core.FieldKey(recv.X) != "CorDef.resultCh" || core.FieldBase(recv.X) != yf.Params[0].Name() {
 				return false, "YieldFrom does not wait on the caller's own result channel (it would take another coroutine's answer)"
 			}
-			if !core.InstrDominates(call, recv) {
+			if !core.InstrDominates(rq.rootIns, recv) {
 				return false, "the wait for the answer does not follow the request"
 			}
 			okRet := false
-			core.Instrs(yf, func(ins ssa.Instruction) {
-				if r, isR := ins.(*ssa.Return); isR {
-					v := core.Resolve(liveValue(core.Resolve(core.RetVals(r)[0]), closedEdge))
-					if ex, isE := v.(*ssa.Extract); isE && ex.Tuple == ssa.Value(recv) && ex.Index == 0 || v == ssa.Value(recv) {
-						okRet = true
-					}
+			for _, rcase := range core.ReturnCases(yf) {
+				v := core.Resolve(liveValue(core.Resolve(rcase.Vals[0]), closedEdge))
+				if ex, isE := v.(*ssa.Extract); isE && ex.Tuple == ssa.Value(recv) && ex.Index == 0 || v == ssa.Value(recv) {
+					okRet = true
 				}
-			})
+			}
 			if !okRet {
 				return false, "YieldFrom does not return the received answer"
 			}
-			return true, "one request target.receive(caller, in), then receive on own resultCh, returned"
+			return true, "one request {cor: caller, val: in} on the target's request channel under the target's lock, then receive on own resultCh, returned"
 		}()
 		c.Check(ok, "R1", "CorDef.YieldFrom", p.Pos(yf.Pos()), detail, detail)
 	}
-	// ---------- receive
-	{
+	// ---------- the request builder (receive), where it exists as a function of its own
+	if rc != nil {
+		c.Analysed(core.FuncName(rc))
 		ok, detail := func() (bool, string) {
-			ws := callsOf(rc, core.FuncName(wrapper))
-			if len(ws) != 1 || len(ws[0].Call.Args) < 2 || core.Resolve(ws[0].Call.Args[0]) != ssa.Value(rc.Params[0]) {
-				return false, "receive does not enqueue under its own lock wrapper exactly once"
+			reqs := c14deepSends(p, li, rc, "CorDef.opCh")
+			if len(reqs) != 1 {
+				return false, "receive does not enqueue under its own lock exactly once"
 			}
-			fv := core.ResolveFuncValue(p, ws[0].Call.Args[1])
-			if fv == nil {
-				return false, "receive does not enqueue under its own lock wrapper exactly once"
-			}
-			cl, outer := guardedBody(p, fv)
-			var send *ssa.Send
-			core.Instrs(cl, func(ins ssa.Instruction) {
-				if s, isS := ins.(*ssa.Send); isS {
-					send = s
-				}
-			})
-			var chOwner ssa.Value
-			if send != nil {
-				if ld, isLd := core.Unwrap(send.Chan).(*ssa.UnOp); isLd {
-					if fa, isFA := ld.X.(*ssa.FieldAddr); isFA {
-						chOwner = outer(core.FieldOwner(fa))
-					}
+			// (caller, in) are its parameters, whatever their order
+			var corPrm, valPrm *ssa.Parameter
+			for _, prm := range rc.Params[1:] {
+				if core.TypeName(prm.Type()) == "CorDef" {
+					corPrm = prm
+				} else if valPrm == nil {
+					valPrm = prm
 				}
 			}
-			if send == nil || core.FieldKey(send.Chan) != "CorDef.opCh" || chOwner == nil || core.Resolve(chOwner) != ssa.Value(rc.Params[0]) {
-				return false, "the request is not sent on the receiver's own request channel"
+			if corPrm == nil || valPrm == nil {
+				return false, "receive does not take the caller and the value"
 			}
-			alloc, isA := core.Resolve(send.X).(*ssa.Alloc)
-			if !isA {
-				// built by receive itself before the guarded function runs, and captured by it
-				if o := outer(send.X); o != nil {
-					alloc, isA = core.Resolve(o).(*ssa.Alloc)
-				}
+			if why := reqs[0].requestIs(rc.Params[0], corPrm, valPrm); why != "" {
+				return false, why
 			}
-			if !isA {
-				return false, "the request sent is not a freshly built CorOp"
+			if !reqs[0].once {
+				return false, "receive does not enqueue under its own lock exactly once"
 			}
-			corOK, valOK := false, false
-			for _, r := range *alloc.Referrers() {
-				fa, isFA := r.(*ssa.FieldAddr)
-				if !isFA {
-					continue
-				}
-				for _, st := range core.Stores(fa) {
-					v := outer(st.Val)
-					if v != nil {
-						v = core.Resolve(v)
-					}
-					switch core.FieldName(fa.X.Type(), fa.Field) {
-					case "cor":
-						corOK = v == ssa.Value(rc.Params[1])
-					case "val":
-						valOK = v == ssa.Value(rc.Params[2])
-					}
-				}
-			}
-			if !corOK || !valOK {
-				return false, fmt.Sprintf("the request is not {cor: caller, val: in} (cor ok=%v, val ok=%v): answers go to the wrong coroutine or carry the wrong value", corOK, valOK)
-			}
-			return true, "enqueues &CorOp{cor: caller, val: in} on its own opCh under its own lock wrapper"
+			return true, "enqueues &CorOp{cor: caller, val: in} on its own opCh under its own lock"
 		}()
 		c.Check(ok, "R1", "CorDef.receive", p.Pos(rc.Pos()), detail, detail)
 	}
@@ -477,9 +400,13 @@ func runC14(c *core.Ctx) {
 		c.Unknown("R2", "CorDef.StartWithVal", "-", "method not found")
 	} else {
 		c.Analysed(core.FuncName(sv))
-		rs := callsOf(sv, core.FuncName(rc))
 		ss := callsOf(sv, "fpgo.CorDef.Start")
-		ok := len(rs) == 1 && len(ss) == 1 && c14notStarted(p, rs[0].Block(), sv.Params[0].Name()) && core.InstrDominates(rs[0], ss[0]) && rs[0].Call.Args[0] == ssa.Value(sv.Params[0]) && core.IsNilConst(rs[0].Call.Args[1]) && rs[0].Call.Args[2] == ssa.Value(sv.Params[1]) && ss[0].Call.Args[0] == ssa.Value(sv.Params[0])
+		reqs := c14deepSends(p, li, sv, "CorDef.opCh")
+		ok := len(reqs) == 1 && len(ss) == 1 && core.Resolve(ss[0].Call.Args[0]) == ssa.Value(sv.Params[0])
+		if ok {
+			rq := reqs[0]
+			ok = rq.requestIs(sv.Params[0], nil, sv.Params[1]) == "" && rq.once && c14notStarted(p, rq.rootIns.Block(), sv.Params[0].Name()) && core.InstrDominates(rq.rootIns, ss[0])
+		}
 		c.Check(ok, "R2", "CorDef.StartWithVal", p.Pos(sv.Pos()), "receive(nil, in) precedes Start()", "the initial value is not enqueued (as receive(nil, in)) before the coroutine is started: a caller that sees IsStarted can get its request in front of it, shifting every later pairing")
 	}
 	if dn := p.Method(p.Fpgo, "CorDef", "DoNotation"); dn == nil || len(dn.AnonFuncs) != 1 {
@@ -587,4 +514,170 @@ func guardedBody(p *core.Prog, fv *core.FuncVal) (*ssa.Function, func(ssa.Value)
 		}
 		return fv.Outer(v)
 	}
+}
+
+
+// c14val is a value together with the chain of helper calls (from the root) that leads to the frame it lives in; the
+// chain is empty for a value of the root's own frame.
+type c14val struct {
+	v     ssa.Value
+	stack []*ssa.Call
+}
+
+func (x c14val) isRoot(v ssa.Value) bool {
+	return x.v != nil && len(x.stack) == 0 && core.Resolve(x.v) == v
+}
+
+// c14frame is one frame on the way from a root function to a send: the block (in that frame) from which the next step is
+// taken, and the translation of that frame's values towards the root's frame (as far up as parameters allow).
+type c14frame struct {
+	block *ssa.BasicBlock
+	conv  func(ssa.Value) c14val
+}
+
+// c14send is a send on a coroutine channel reachable from a root function - in the root itself, in a function of the
+// package it calls, or in the function a lock wrapper runs for it.
+type c14send struct {
+	send      *ssa.Send
+	rootIns   ssa.Instruction // the instruction of the root that leads to the send
+	owner     c14val          // the coroutine whose channel is sent on
+	ownerPath string
+	val       c14val // the value sent
+	locked    bool   // the owner's closedM is held exclusively at the send
+	once      bool   // no frame on the way takes the step more than once per execution
+	frames    []c14frame
+	lit       map[string]c14val // for a request: the fields of the &CorOp{…} sent
+}
+
+func c14deepSends(p *core.Prog, li *core.LockInfo, root *ssa.Function, field string) []c14send {
+	var out []c14send
+	onStack := map[*ssa.Function]bool{}
+	convOf := map[*ssa.Function]func(ssa.Value) c14val{}
+	var walk func(f *ssa.Function, conv func(ssa.Value) c14val, stack []*ssa.Call, rootIns ssa.Instruction, frames []c14frame, once bool, depth int)
+	walk = func(f *ssa.Function, conv func(ssa.Value) c14val, stack []*ssa.Call, rootIns ssa.Instruction, frames []c14frame, once bool, depth int) {
+		if depth > 4 || onStack[f] || len(f.Blocks) == 0 {
+			return
+		}
+		onStack[f] = true
+		convOf[f] = conv
+		defer func() { onStack[f] = false; delete(convOf, f) }()
+		stepOnce := func(ins ssa.Instruction) bool {
+			_, mx := core.PathCount(f, func(i2 ssa.Instruction) int {
+				if i2 == ins {
+					return 1
+				}
+				return 0
+			}, nil)
+			return mx == 1
+		}
+		core.Instrs(f, func(ins ssa.Instruction) {
+			cur := rootIns
+			if depth == 0 {
+				cur = ins
+			}
+			fr := append(append([]c14frame{}, frames...), c14frame{ins.Block(), conv})
+			switch x := ins.(type) {
+			case *ssa.Send:
+				if core.FieldKey(x.Chan) != field {
+					return
+				}
+				snd := c14send{send: x, rootIns: cur, frames: fr, once: once && stepOnce(ins), ownerPath: core.FieldBase(x.Chan)}
+				if ld, isLd := core.Unwrap(x.Chan).(*ssa.UnOp); isLd {
+					if fa, isFA := ld.X.(*ssa.FieldAddr); isFA {
+						own := core.FieldOwner(fa)
+						snd.owner = conv(own)
+						snd.locked = li.At[ins].Has(core.Path(own)+".closedM", "W")
+					}
+				}
+				snd.val = conv(x.X)
+				// a request literal: &CorOp{cor: …, val: …} built in this frame or in an outer one and captured
+				alloc, isA := core.Resolve(x.X).(*ssa.Alloc)
+				if !isA && snd.val.v != nil {
+					alloc, isA = core.Resolve(snd.val.v).(*ssa.Alloc)
+				}
+				if isA {
+					if ac := convOf[alloc.Parent()]; ac != nil {
+						snd.lit = map[string]c14val{}
+						for _, r := range *alloc.Referrers() {
+							if fa, isFA := r.(*ssa.FieldAddr); isFA {
+								for _, st := range core.Stores(fa) {
+									snd.lit[core.FieldName(fa.X.Type(), fa.Field)] = ac(st.Val)
+								}
+							}
+						}
+					}
+				}
+				out = append(out, snd)
+			case *ssa.Call:
+				g := core.Callee(&x.Call)
+				if g != nil && g.Pkg == p.Fpgo && g.Parent() == nil && len(g.Blocks) > 0 && !x.Call.IsInvoke() {
+					ns := append(append([]*ssa.Call{}, stack...), x)
+					sub := func(v ssa.Value) c14val {
+						r, st := core.Up(core.Resolve(v), ns)
+						return c14val{r, st}
+					}
+					walk(g, sub, ns, cur, fr, once && stepOnce(ins), depth+1)
+				}
+				// functions this call may run, at most once (lock wrappers, a closure called in place)
+				ran := map[*ssa.Function]bool{}
+				for _, cl := range core.RunsAtMostOnce(p, x) {
+					ran[cl] = true
+				}
+				cands := append([]ssa.Value{x.Call.Value}, x.Call.Args...)
+				for _, a := range cands {
+					fv := core.ResolveFuncValue(p, a)
+					if fv == nil || !ran[fv.Fn] {
+						continue
+					}
+					body, outer := guardedBody(p, fv)
+					sub := func(v ssa.Value) c14val {
+						o := outer(v)
+						if o == nil {
+							return c14val{}
+						}
+						// a value of the creating frame (this one) - or one that stays local to the function run
+						if iv, isI := o.(ssa.Instruction); isI && iv.Parent() != f {
+							return c14val{o, nil}
+						}
+						if prm, isP := o.(*ssa.Parameter); isP && prm.Parent() != f {
+							return c14val{o, nil}
+						}
+						return conv(o)
+					}
+					walk(body, sub, stack, cur, fr, once && stepOnce(ins), depth+1)
+				}
+			}
+		})
+	}
+	walk(root, func(v ssa.Value) c14val { return c14val{core.Resolve(v), nil} }, nil, nil, nil, true, 0)
+	return out
+}
+
+// requestIs: the send is a request on target's request channel, under target's lock, carrying &CorOp{cor: caller, val: v}
+// (caller nil: the nil constant / field left zero). Returns "" or what is wrong.
+func (s c14send) requestIs(target, caller, v ssa.Value) string {
+	if !s.owner.isRoot(target) {
+		return "the request is not sent on the receiver's own request channel"
+	}
+	if !s.locked {
+		return "the request is sent without holding the target's lock: it races with the target's close()"
+	}
+	if s.lit == nil {
+		return "the request sent is not a freshly built CorOp"
+	}
+	corOK := false
+	if cv, has := s.lit["cor"]; has {
+		if caller == nil {
+			corOK = cv.v != nil && core.IsNilConst(core.Resolve(cv.v))
+		} else {
+			corOK = cv.isRoot(caller)
+		}
+	} else if caller == nil {
+		corOK = true
+	}
+	valOK := s.lit["val"].isRoot(v)
+	if !corOK || !valOK {
+		return fmt.Sprintf("the request is not {cor: caller, val: in} (cor ok=%v, val ok=%v): answers go to the wrong coroutine or carry the wrong value", corOK, valOK)
+	}
+	return ""
 }
